@@ -50,6 +50,8 @@ fn cross_plan(prop: &str, thorough: bool) -> Option<(universal::Oracle, bool, Ve
         "C05" => (universal::c05, false, except("C05", &[])),
         "C06" => (universal::c06, false, except("C06", &[])),
         "C07" => (universal::c07, false, except("C07", &[])),
+        // (C02's hosts map deliberately malformed ELF images: identification of those is C14's business)
+        "C08" => (universal::c08, false, except("C08", &["C04"]).into_iter().filter(|h| *h != "C02").collect()),
         "C12" => (universal::c12, false, except("C12", &["C04"])),
         "C15" => (universal::c15, false, except("C15", &["C04"])),
         "C20" => (universal::c20, false, except("C20", &["C04"])),
